@@ -27,6 +27,10 @@ pub enum Expr {
     Func(u16, &'static str, Vec<Expr>, bool),
     /// SUM(x) stored as PtgAttrSum
     AttrSum(Box<Expr>),
+    /// deleted references: PtgRefErr / PtgAreaErr and their 3-D forms (xti index)
+    RefErr, AreaErr, RefErr3d(usize), AreaErr3d(usize),
+    /// omitted function argument (PtgMissArg), only as an argument
+    MissArg,
 }
 
 pub const BINOPS: [(u8, &str); 15] = [(0x03, "+"), (0x04, "-"), (0x05, "*"), (0x06, "/"), (0x07, "^"), (0x08, "&"), (0x09, "<"), (0x0A, "<="), (0x0B, "="), (0x0C, ">"), (0x0D, ">="), (0x0E, "<>"), (0x0F, " "), (0x10, ","), (0x11, ":")];
@@ -64,6 +68,9 @@ pub fn render(e: &Expr, c: &Ctx) -> String {
         Expr::Paren(x) => format!("({})", render(x, c)),
         Expr::Func(_, name, args, _) => format!("{name}({})", args.iter().map(|a| render(a, c)).collect::<Vec<_>>().join(",")),
         Expr::AttrSum(x) => format!("SUM({})", render(x, c)),
+        Expr::RefErr | Expr::AreaErr => "#REF!".to_string(),
+        Expr::RefErr3d(x) | Expr::AreaErr3d(x) => format!("{}!#REF!", c.xti_sheet[*x]),
+        Expr::MissArg => String::new(),
     }
 }
 
@@ -72,7 +79,12 @@ fn col_flags(r: &CellRef) -> u16 {
     (r.col as u16 & 0x3FFF) | if r.col_abs { 0 } else { 0x4000 } | if r.row_abs { 0 } else { 0x8000 }
 }
 
-thread_local! { static NAME_BASE: std::cell::Cell<u32> = const { std::cell::Cell::new(0) }; }
+thread_local! { static NAME_BASE: std::cell::Cell<u32> = const { std::cell::Cell::new(0) }; static CONTROL: std::cell::Cell<bool> = const { std::cell::Cell::new(false) }; }
+/// Run `f` with the control tokens a spreadsheet application writes switched on: IF and CHOOSE carry their PtgAttrIf /
+/// PtgAttrChoose / PtgAttrGoto jump tokens (they render as nothing). The caller prefixes PtgAttrSemi (volatile) itself.
+pub fn with_control<R>(f: impl FnOnce() -> R) -> R { CONTROL.with(|b| b.set(true)); let r = f(); CONTROL.with(|b| b.set(false)); r }
+/// PtgAttrSemi: 0x19 0x01 + 2 unused bytes
+pub const ATTR_SEMI: [u8; 4] = [0x19, 0x01, 0x00, 0x00];
 /// Run `f` with PtgName indices shifted by `base` (the workbook has `base` name records before the model's names).
 pub fn with_name_base<R>(base: u32, f: impl FnOnce() -> R) -> R { NAME_BASE.with(|b| b.set(base)); let r = f(); NAME_BASE.with(|b| b.set(0)); r }
 
@@ -104,12 +116,30 @@ pub fn to_ptg(e: &Expr, biff12: bool, value_class: bool, out: &mut Vec<u8>) {
         Expr::Unary(op, x) => { to_ptg(x, biff12, value_class, out); out.push(match op { '+' => 0x12, '-' => 0x13, _ => 0x14 }); }
         Expr::Binary(op, a, b) => { to_ptg(a, biff12, value_class, out); to_ptg(b, biff12, value_class, out); out.push(*op); }
         Expr::Paren(x) => { to_ptg(x, biff12, value_class, out); out.push(0x15); }
+        Expr::Func(iftab, _, args, var) if CONTROL.with(|b| b.get()) && *var && (*iftab == 1 || *iftab == 100) && args.len() >= 2 => {
+            // jump offsets are not needed to render the text; plausible non-zero values are written
+            to_ptg(&args[0], biff12, value_class, out);
+            if *iftab == 1 { out.extend([0x19, 0x02]); out.extend(7u16.to_le_bytes()); }
+            else {
+                let n = args.len() - 1;
+                out.extend([0x19, 0x04]); out.extend((n as u16).to_le_bytes());
+                for k in 0..=n { out.extend(((2 * (n + 1) + 5 * k) as u16).to_le_bytes()); }
+            }
+            for a in &args[1..] { to_ptg(a, biff12, value_class, out); out.extend([0x19, 0x08]); out.extend(3u16.to_le_bytes()); }
+            out.push(0x02 | cls); out.push(args.len() as u8); out.extend(iftab.to_le_bytes());
+        }
         Expr::Func(iftab, _, args, var) => {
             for a in args { to_ptg(a, biff12, value_class, out); }
             if *var { out.push(0x02 | cls); out.push(args.len() as u8); out.extend(iftab.to_le_bytes()); }
             else { out.push(0x01 | cls); out.extend(iftab.to_le_bytes()); }
         }
         Expr::AttrSum(x) => { to_ptg(x, biff12, value_class, out); out.extend([0x19, 0x10, 0x00, 0x00]); }
+        // MS-XLS 2.5.198.87/.28/.86/.32, MS-XLSB 2.5.97.80/.30/.79/.33: the unused location fields keep their width
+        Expr::RefErr => { out.push(0x0A | cls); out.extend(vec![0u8; if biff12 { 6 } else { 4 }]); }
+        Expr::AreaErr => { out.push(0x0B | cls); out.extend(vec![0u8; if biff12 { 12 } else { 8 }]); }
+        Expr::RefErr3d(x) => { out.push(0x1C | cls); out.extend((*x as u16).to_le_bytes()); out.extend(vec![0u8; if biff12 { 6 } else { 4 }]); }
+        Expr::AreaErr3d(x) => { out.push(0x1D | cls); out.extend((*x as u16).to_le_bytes()); out.extend(vec![0u8; if biff12 { 12 } else { 8 }]); }
+        Expr::MissArg => out.push(0x16),
     }
 }
 
